@@ -218,7 +218,8 @@ def restart(check: Check) -> None:
         def f(n) -> bool:
             for c in cfg.calls_in(n):
                 if isinstance(c.func, ast.Attribute) and c.func.attr == method and r.term(c.func.value, n)[0] == "elem":
-                    if not arg_self or (c.args and r.term(c.args[0], n) == ("param", "self")):
+                    t = r.term(c, n)
+                    if not arg_self or (t[2] and t[2][0] == ("param", "self")):
                         return True
             return False
         return f
